@@ -1,4 +1,6 @@
-(* Proofs/IncluderProofs.v — the DA-included height: invariants of Model/Includer.v over all histories (C07). *)
+(* Proofs/IncluderProofs.v — the DA-included height: invariants of Model/Includer.v over all histories (C07).
+   The invariant is stated relative to the PERSISTED height K = kd (meta s); the volatile (reported) height
+   is K or K-1 at every instant, and equal to K between items. *)
 From Coq Require Import NArith List Bool Lia ZifyBool ZifyN ZifyNat.
 From Verif Require Import Model.Includer.
 Import ListNotations.
@@ -22,12 +24,6 @@ Proof.
   repeat split.
 Qed.
 
-Lemma apply_effs_app s a b : apply_effs s (a ++ b) = apply_effs (apply_effs s a) b.
-Proof. unfold apply_effs; apply fold_left_app. Qed.
-
-Lemma mkey_eqb_refl k : mkey_eqb k k = true.
-Proof. destruct k; cbn; try reflexivity; apply N.eqb_refl. Qed.
-
 (* ---- the invariant ------------------------------------------------------------------------------ *)
 Definition sound_at (h : list item) (s : node) (n : N) : Prop :=
   exists b hda dda,
@@ -42,13 +38,16 @@ Definition prov (h : list item) (s : node) : Prop :=
   (forall id da, mget (dm s) id = Some da -> In (IMarkD id da) h) /\
   (forall id da, mget (sv_d s) id = Some da -> In (IMarkD id da) h).
 
+Notation K s := (kd (meta s)).
+
 Record Inv (h : list item) (s : node) : Prop := {
-  i_kd : kd (meta s) = di s;
-  i_le : di s <= sheight s;
-  i_desc : desc (dputs (tr s)) (di s);
-  i_fin : exists m, (m = di s \/ m = di s + 1) /\ finsok (fins (tr s)) m;
+  i_kd : K s = di s \/ K s = di s + 1;
+  i_le : K s <= sheight s;
+  i_desc : desc (dputs (tr s)) (K s);
+  i_fin : exists m, (m = K s \/ m = K s + 1) /\ finsok (fins (tr s)) m;
   i_abr : asked_before (tr s);
-  i_sound : forall n, 1 <= n <= di s -> sound_at h s n;
+  i_pab : persisted_before (tr s);
+  i_sound : forall n, 1 <= n <= K s -> sound_at h s n;
   i_prov : prov h s
 }.
 
@@ -66,71 +65,99 @@ Proof.
   destruct H as [->|H]; [left; left; reflexivity | right; apply IH, H].
 Qed.
 
-(* a Put of rhb/<n>/h or rhb/<n>/d for a height above the reported one *)
+Lemma prov_eff h s e : prov h s -> prov h (apply_eff s e).
+Proof.
+  intros (A & B & C & D). unfold prov.
+  rewrite apply_eff_hm, apply_eff_dm, apply_eff_svh, apply_eff_svd. repeat split; assumption.
+Qed.
+
+(* a Put of rhb/<n>/h or rhb/<n>/d for a height above the persisted one *)
 Lemma eff_rhb h s k v n :
-  Inv h s -> (k = KH n \/ k = KT n) -> di s < n -> Inv h (apply_eff s (EPut k v)).
+  Inv h s -> (k = KH n \/ k = KT n) -> K s < n -> Inv h (apply_eff s (EPut k v)).
 Proof.
   intros I Hk Hn.
   assert (Hkd : mkey_eqb KD k = false) by (destruct Hk; subst; reflexivity).
-  assert (Hdi : di (apply_eff s (EPut k v)) = di s) by (destruct Hk; subst; reflexivity).
-  constructor.
-  - rewrite Hdi, <- (i_kd _ _ I). unfold kd; cbn [apply_eff meta meta_get]. rewrite Hkd; reflexivity.
-  - rewrite Hdi. unfold sheight; rewrite apply_eff_chain. apply (i_le _ _ I).
-  - rewrite Hdi. replace (dputs (tr (apply_eff s (EPut k v)))) with (dputs (tr s)); [apply (i_desc _ _ I)|].
+  assert (HK : K (apply_eff s (EPut k v)) = K s).
+  { unfold kd; cbn [apply_eff meta meta_get]. rewrite Hkd; reflexivity. }
+  constructor; rewrite ?HK.
+  - exact (i_kd _ _ I).
+  - unfold sheight; rewrite apply_eff_chain. apply (i_le _ _ I).
+  - replace (dputs (tr (apply_eff s (EPut k v)))) with (dputs (tr s)); [apply (i_desc _ _ I)|].
     destruct Hk; subst; reflexivity.
-  - rewrite Hdi. replace (fins (tr (apply_eff s (EPut k v)))) with (fins (tr s)); [apply (i_fin _ _ I)|].
-    reflexivity.
+  - exact (i_fin _ _ I).
   - destruct Hk; subst; cbn; apply (i_abr _ _ I).
-  - rewrite Hdi. intros n' Hn'. destruct (i_sound _ _ I n' Hn') as (b & hda & dda & Hb & Hh & Hd & Hrest).
+  - destruct Hk; subst; cbn; apply (i_pab _ _ I).
+  - intros n' Hn'. destruct (i_sound _ _ I n' Hn') as (b & hda & dda & Hb & Hh & Hd & Hrest).
     exists b, hda, dda. rewrite apply_eff_chain. split; [exact Hb|].
     assert (Hne : (n' =? n) = false) by (apply N.eqb_neq; lia).
     split; [|split; [|exact Hrest]]; cbn [apply_eff meta meta_get];
       destruct Hk; subst; cbn [mkey_eqb]; try rewrite Hne; assumption.
-  - destruct (i_prov _ _ I) as (A & B & C & D).
-    unfold prov. rewrite apply_eff_hm, apply_eff_dm, apply_eff_svh, apply_eff_svd. repeat split; assumption.
+  - apply prov_eff, (i_prov _ _ I).
 Qed.
 
 (* SetFinal of the next height *)
-Lemma eff_fin h s : Inv h s -> Inv h (apply_eff s (EFin (di s + 1))).
+Lemma eff_fin h s n : Inv h s -> n = K s + 1 -> Inv h (apply_eff s (EFin n)).
 Proof.
-  intros I. constructor; cbn [apply_eff meta di tr chain hm dm sv_h sv_d].
+  intros I ->. constructor; cbn [apply_eff meta di tr chain hm dm sv_h sv_d].
   - apply (i_kd _ _ I).
   - apply (i_le _ _ I).
   - apply (i_desc _ _ I).
-  - exists (di s + 1). split; [right; reflexivity|].
+  - exists (K s + 1). split; [right; reflexivity|].
     unfold fins; cbn [flat_map app]. fold (fins (tr s)).
     destruct (i_fin _ _ I) as (m & [->| ->] & Hf); cbn; (split; [reflexivity|split; [lia|]]).
-    + right. replace (di s + 1 - 1) with (di s) by lia. exact Hf.
+    + right. replace (K s + 1 - 1) with (K s) by lia. exact Hf.
     + left. exact Hf.
   - cbn. apply (i_abr _ _ I).
+  - cbn. apply (i_pab _ _ I).
   - intros n Hn. destruct (i_sound _ _ I n Hn) as (b & hda & dda & H). exists b, hda, dda. exact H.
   - apply (i_prov _ _ I).
 Qed.
 
-(* the Put of "d" (followed by the compare-and-swap of the volatile height) *)
-Lemma eff_kd h s :
-  Inv h s -> In (EFin (di s + 1)) (tr s) -> sound_at h s (di s + 1) -> di s + 1 <= sheight s ->
-  Inv h (apply_eff s (EPut KD (di s + 1))).
+(* the Put of "d" *)
+Lemma eff_kd h s n :
+  Inv h s -> K s = di s -> n = K s + 1 -> In (EFin n) (tr s) -> sound_at h s n -> n <= sheight s ->
+  Inv h (apply_eff s (EPut KD n)) /\ K (apply_eff s (EPut KD n)) = n.
 Proof.
-  intros I Hin Hs Hle. constructor; cbn [apply_eff meta di tr chain hm dm sv_h sv_d].
-  - unfold kd; cbn. reflexivity.
+  intros I HK -> Hin Hs Hle.
+  assert (HK' : K (apply_eff s (EPut KD (K s + 1))) = K s + 1) by reflexivity.
+  split; [|exact HK'].
+  constructor; rewrite ?HK'; cbn [apply_eff di tr chain hm dm sv_h sv_d].
+  - right. lia.
   - exact Hle.
   - unfold dputs; cbn [flat_map app]. fold (dputs (tr s)). cbn. split; [reflexivity|split; [lia|]].
-    replace (di s + 1 - 1) with (di s) by lia. apply (i_desc _ _ I).
-  - exists (di s + 1). split; [left; reflexivity|].
+    replace (K s + 1 - 1) with (K s) by lia. apply (i_desc _ _ I).
+  - exists (K s + 1). split; [left; reflexivity|].
     unfold fins; cbn [flat_map app]. fold (fins (tr s)).
     destruct (i_fin _ _ I) as (m & Hm & Hf).
     pose proof (finsok_le _ _ _ Hf (in_fins _ _ Hin)) as Hx.
-    assert (m = di s + 1) as <- by lia. exact Hf.
+    assert (m = K s + 1) as <- by lia. exact Hf.
   - cbn. split; [exact Hin | apply (i_abr _ _ I)].
+  - cbn. apply (i_pab _ _ I).
   - intros n Hn.
     assert (Hput : forall n', sound_at h s n' ->
-              sound_at h {| chain := chain s; meta := (KD, di s + 1) :: meta s; sv_h := sv_h s; sv_d := sv_d s;
-                            di := di s + 1; hm := hm s; dm := dm s; tr := EPut KD (di s + 1) :: tr s |} n').
+              sound_at h {| chain := chain s; meta := (KD, K s + 1) :: meta s; sv_h := sv_h s; sv_d := sv_d s;
+                            di := di s; hm := hm s; dm := dm s; tr := EPut KD (K s + 1) :: tr s |} n').
     { intros n' (b & hda & dda & Hb & Hh & Hd & Hi & Hrest). exists b, hda, dda.
       cbn [chain meta meta_get mkey_eqb]. split; [exact Hb|split; [exact Hh|split; [exact Hd|split; [exact Hi|exact Hrest]]]]. }
-    destruct (N.eq_dec n (di s + 1)) as [->|Hne]; apply Hput; [exact Hs|].
+    destruct (N.eq_dec n (K s + 1)) as [->|Hne]; apply Hput; [exact Hs|].
     apply (i_sound _ _ I). lia.
+  - apply (i_prov _ _ I).
+Qed.
+
+(* the compare-and-swap: the persisted height becomes the reported one *)
+Lemma eff_pub h s n :
+  Inv h s -> n = K s -> K s = di s + 1 -> In (EPut KD n) (tr s) ->
+  Inv h (apply_eff s (EPub n)) /\ K (apply_eff s (EPub n)) = di (apply_eff s (EPub n)).
+Proof.
+  intros I -> HK Hin. split; [|reflexivity].
+  constructor; cbn [apply_eff meta di tr chain hm dm sv_h sv_d].
+  - left; reflexivity.
+  - apply (i_le _ _ I).
+  - apply (i_desc _ _ I).
+  - apply (i_fin _ _ I).
+  - cbn. apply (i_abr _ _ I).
+  - cbn. split; [exact Hin | apply (i_pab _ _ I)].
+  - intros n Hn. destruct (i_sound _ _ I n Hn) as (b & hda & dda & H). exists b, hda, dda. exact H.
   - apply (i_prov _ _ I).
 Qed.
 
@@ -139,54 +166,69 @@ Proof. induction pre; cbn; auto. Qed.
 
 (* a run of the includer, cut after any number of effects *)
 Lemma incl_inv h : forall bs s k pre,
-  Inv h s -> chain s = pre ++ bs -> length pre = N.to_nat (di s) ->
-  let s' := apply_effs s (firstn k (incl_effs (hm s) (dm s) bs (di s))) in
-  Inv h s' /\ di s <= di s'.
+  Inv h s -> K s = di s -> chain s = pre ++ bs -> length pre = N.to_nat (di s) ->
+  let es := incl_effs (hm s) (dm s) bs (di s) in
+  let s' := apply_effs s (firstn k es) in
+  Inv h s' /\ di s <= di s' /\ ((length es <= k)%nat -> K s' = di s').
 Proof.
-  induction bs as [|b r IH]; intros s k pre I Hc Hl; cbn zeta.
-  - cbn [incl_effs]. rewrite firstn_nil. cbn. split; [exact I | lia].
-  - cbn [incl_effs].
-    destruct (mget (hm s) (bh b)) as [hda|] eqn:Hh; [|rewrite firstn_nil; cbn; split; [exact I | lia]].
+  induction bs as [|ob r IH]; intros s k pre I HK Hc Hl; cbn zeta.
+  - cbn [incl_effs]. rewrite firstn_nil. cbn. (split; [exact I | split; [lia | auto]]).
+  - destruct ob as [b|]; cbn [incl_effs];
+      [|rewrite firstn_nil; cbn; (split; [exact I | split; [lia | auto]])].
+    destruct (mget (hm s) (bh b)) as [hda|] eqn:Hh;
+      [|rewrite firstn_nil; cbn; (split; [exact I | split; [lia | auto]])].
     destruct (if bempty b then Some hda else mget (dm s) (bd b)) as [dda|] eqn:Hd;
-      [|rewrite firstn_nil; cbn; split; [exact I | lia]].
+      [|rewrite firstn_nil; cbn; (split; [exact I | split; [lia | auto]])].
     set (e1 := EPut (KH (di s + 1)) hda). set (e2 := EPut (KT (di s + 1)) dda).
-    set (e3 := EFin (di s + 1)). set (e4 := EPut KD (di s + 1)).
+    set (e3 := EFin (di s + 1)). set (e4 := EPut KD (di s + 1)). set (e5 := EPub (di s + 1)).
     assert (I1 : Inv h (apply_eff s e1)) by (eapply eff_rhb; [exact I | left; reflexivity | lia]).
-    assert (I2 : Inv h (apply_eff (apply_eff s e1) e2)) by (eapply eff_rhb; [exact I1 | right; reflexivity | cbn; lia]).
-    assert (I3 : Inv h (apply_eff (apply_eff (apply_eff s e1) e2) e3)) by (apply (eff_fin h _ I2)).
+    assert (K1 : K (apply_eff s e1) = K s) by reflexivity.
+    assert (I2 : Inv h (apply_eff (apply_eff s e1) e2)) by (eapply eff_rhb; [exact I1 | right; reflexivity | lia]).
+    assert (K2 : K (apply_eff (apply_eff s e1) e2) = K s) by reflexivity.
+    assert (I3 : Inv h (apply_eff (apply_eff (apply_eff s e1) e2) e3)) by (apply (eff_fin h _ _ I2); lia).
+    assert (K3 : K (apply_eff (apply_eff (apply_eff s e1) e2) e3) = K s) by reflexivity.
     assert (Hlen : di s + 1 <= sheight s).
     { unfold sheight. rewrite Hc, app_length. cbn [length]. lia. }
-    assert (I4 : Inv h (apply_eff (apply_eff (apply_eff (apply_eff s e1) e2) e3) e4)).
-    { apply (eff_kd h _ I3).
-      - left; reflexivity.
-      - exists b, hda, dda. cbn [apply_eff chain meta meta_get mkey_eqb di e1 e2 e3].
-        rewrite N.eqb_refl. split; [|split; [reflexivity|split; [reflexivity|]]].
-        + unfold block_at. replace (di s + 1 =? 0) with false by (symmetry; apply N.eqb_neq; lia).
-          replace (N.to_nat (di s + 1 - 1)) with (length pre) by lia. rewrite Hc. apply nth_error_mid.
-        + destruct (i_prov _ _ I) as (A & _ & C & _). split; [apply A, Hh|].
-          destruct (bempty b); [congruence | apply C, Hd].
-      - exact Hlen. }
-    destruct k as [|[|[|[|k]]]]; cbn [firstn apply_effs fold_left].
-    + split; [exact I | lia].
-    + split; [exact I1 | cbn; lia].
-    + split; [exact I2 | cbn; lia].
-    + split; [exact I3 | cbn; lia].
-    + set (s4 := apply_eff (apply_eff (apply_eff (apply_eff s e1) e2) e3) e4) in *.
-      assert (Hd4 : di s4 = di s + 1) by reflexivity.
-      specialize (IH s4 k (pre ++ [b]) I4).
-      replace (hm s) with (hm s4) by reflexivity. replace (dm s) with (dm s4) by reflexivity.
-      rewrite <- Hd4.
-      destruct IH as (IA & IB).
-      * change (chain s4) with (chain s). rewrite Hc, <- app_assoc. reflexivity.
-      * rewrite app_length, Hd4. cbn [length]. lia.
-      * unfold apply_effs in *. split; [exact IA | lia].
+    destruct (eff_kd h (apply_eff (apply_eff (apply_eff s e1) e2) e3) (di s + 1) I3) as (I4 & K4).
+    { rewrite K3. exact HK. }
+    { lia. }
+    { left; reflexivity. }
+    { exists b, hda, dda. cbn [apply_eff chain meta meta_get mkey_eqb di e1 e2 e3].
+      rewrite N.eqb_refl. split; [|split; [reflexivity|split; [reflexivity|]]].
+      + unfold block_at. replace (di s + 1 =? 0) with false by (symmetry; apply N.eqb_neq; lia).
+        replace (N.to_nat (di s + 1 - 1)) with (length pre) by lia. rewrite Hc, nth_error_mid. reflexivity.
+      + destruct (i_prov _ _ I) as (A & _ & C & _). split; [apply A, Hh|].
+        destruct (bempty b); [congruence | apply C, Hd]. }
+    { exact Hlen. }
+    fold e4 in I4, K4.
+    destruct (eff_pub h (apply_eff (apply_eff (apply_eff (apply_eff s e1) e2) e3) e4) (di s + 1) I4) as (I5 & K5).
+    { rewrite K4; reflexivity. }
+    { rewrite K4. reflexivity. }
+    { left; reflexivity. }
+    fold e5 in I5, K5.
+    destruct k as [|[|[|[|[|k]]]]]; cbn [firstn apply_effs fold_left length].
+    + (split; [exact I | split; [lia | lia]]).
+    + (split; [exact I1 | split; [cbn; lia | lia]]).
+    + (split; [exact I2 | split; [cbn; lia | lia]]).
+    + (split; [exact I3 | split; [cbn; lia | lia]]).
+    + (split; [exact I4 | split; [cbn; lia | lia]]).
+    + set (s5 := apply_eff (apply_eff (apply_eff (apply_eff (apply_eff s e1) e2) e3) e4) e5) in *.
+      assert (Hd5 : di s5 = di s + 1) by reflexivity.
+      specialize (IH s5 k (pre ++ [Some b]) I5 K5).
+      replace (hm s) with (hm s5) by reflexivity. replace (dm s) with (dm s5) by reflexivity.
+      rewrite <- Hd5.
+      destruct IH as (IA & IB & IC).
+      * change (chain s5) with (chain s). rewrite Hc, <- app_assoc. reflexivity.
+      * rewrite app_length, Hd5. cbn [length]. lia.
+      * unfold apply_effs in *. (split; [exact IA | split; [lia | intros Hk; apply IC; lia]]).
 Qed.
 
-Lemma include_inv h s k :
-  Inv h s -> let s' := apply_effs s (firstn k (include_effs s)) in Inv h s' /\ di s <= di s'.
+Lemma dying_inv h s k :
+  Inv h s -> K s = di s ->
+  Inv h (dying s k) /\ di s <= di (dying s k) /\ ((length (include_effs s) <= k)%nat -> K (dying s k) = di (dying s k)).
 Proof.
-  intros I. unfold include_effs.
-  apply (incl_inv h _ s k (firstn (N.to_nat (di s)) (chain s)) I).
+  intros I HK. unfold dying, include_effs.
+  apply (incl_inv h _ s k (firstn (N.to_nat (di s)) (chain s)) I HK).
   - symmetry; apply firstn_skipn.
   - rewrite firstn_length. pose proof (i_le _ _ I) as Hle. unfold sheight in Hle. lia.
 Qed.
@@ -200,11 +242,12 @@ Proof.
   - destruct (i_prov _ _ I) as (A & B & C & D). repeat split; intros id da H; apply Hsub; auto.
 Qed.
 
-Lemma boot_inv h s : Inv h s -> Inv h (boot s) /\ di (boot s) = di s.
+Lemma boot_inv h s : Inv h s -> Inv h (boot s) /\ K (boot s) = di (boot s) /\ di s <= di (boot s).
 Proof.
-  intros I. split; [|apply (i_kd _ _ I)].
-  constructor; cbn [boot chain meta sv_h sv_d di hm dm tr]; try rewrite (i_kd _ _ I); try apply I; try reflexivity.
-  destruct (i_prov _ _ I) as (A & B & C & D). repeat split; assumption.
+  intros I. split; [|split; [reflexivity | cbn; destruct (i_kd _ _ I); lia]].
+  constructor; cbn [boot chain meta sv_h sv_d di hm dm tr]; try apply I.
+  - left; reflexivity.
+  - destruct (i_prov _ _ I) as (A & B & C & D). repeat split; assumption.
 Qed.
 
 Lemma save_inv h s : Inv h s -> Inv h (save s).
@@ -213,43 +256,55 @@ Proof.
   destruct (i_prov _ _ I) as (A & B & C & D). repeat split; assumption.
 Qed.
 
-Lemma block_at_app c b n x : block_at c n = Some x -> block_at (c ++ [b]) n = Some x.
+Lemma block_at_app c x n b : block_at c n = Some b -> block_at (c ++ [x]) n = Some b.
 Proof.
-  unfold block_at. destruct (n =? 0); [discriminate|]. intros H.
-  rewrite nth_error_app1; [exact H|]. apply nth_error_Some. congruence.
+  unfold block_at. destruct (n =? 0); [discriminate|].
+  destruct (nth_error c (N.to_nat (n - 1))) as [ob|] eqn:E; [|discriminate].
+  rewrite nth_error_app1; [rewrite E; auto|]. apply nth_error_Some. congruence.
 Qed.
 
-Lemma step_inv h s i : Inv h s -> Inv (h ++ [i]) (step s i) /\ di s <= di (step s i).
+Definition QInv (h : list item) (s : node) : Prop := Inv h s /\ K s = di s.
+
+Lemma step_inv h s i : QInv h s -> QInv (h ++ [i]) (step s i) /\ di s <= di (step s i).
 Proof.
-  intros I0.
+  intros (I0 & HK).
   assert (I : Inv (h ++ [i]) s) by (eapply inv_weaken; [|exact I0]; intros x Hx; apply in_or_app; left; exact Hx).
   assert (Hlast : In i (h ++ [i])) by (apply in_or_app; right; left; reflexivity).
-  destruct i as [b|id da|id da| |k|]; cbn [step].
-  - split; [|cbn; lia]. constructor; cbn [chain meta sv_h sv_d di hm dm tr]; try apply I.
-    + pose proof (i_le _ _ I) as Hle. unfold sheight in *. cbn [chain]. rewrite app_length. cbn [length]. lia.
-    + intros n Hn. destruct (i_sound _ _ I n Hn) as (x & hda & dda & Hb & Hrest).
-      exists x, hda, dda. split; [apply block_at_app, Hb | exact Hrest].
-  - split; [|cbn; lia]. constructor; cbn [chain meta sv_h sv_d di hm dm tr]; try apply I.
+  assert (Happ : forall x, Inv (h ++ [i])
+            {| chain := chain s ++ [x]; meta := meta s; sv_h := sv_h s; sv_d := sv_d s;
+               di := di s; hm := hm s; dm := dm s; tr := tr s |}).
+  { intros x. constructor; cbn [chain meta sv_h sv_d di hm dm tr]; try apply I.
+    - pose proof (i_le _ _ I) as Hle. unfold sheight in *. cbn [chain]. rewrite app_length. cbn [length]. lia.
+    - intros n Hn. destruct (i_sound _ _ I n Hn) as (y & hda & dda & Hb & Hrest).
+      exists y, hda, dda. split; [apply block_at_app, Hb | exact Hrest]. }
+  destruct i as [|b|id da|id da| |k|k|]; cbn [step].
+  - split; [split; [apply Happ | exact HK] | cbn; lia].
+  - split; [split; [apply Happ | exact HK] | cbn; lia].
+  - split; [split; [|exact HK]|cbn; lia]. constructor; cbn [chain meta sv_h sv_d di hm dm tr]; try apply I.
     destruct (i_prov _ _ I) as (A & B & C & D). repeat split; try assumption.
-      cbn [hm mget]. intros id' da'. destruct (id' =? id) eqn:E; [|apply A].
-      intros H; inversion H; subst. apply N.eqb_eq in E; subst. exact Hlast.
-  - split; [|cbn; lia]. constructor; cbn [chain meta sv_h sv_d di hm dm tr]; try apply I.
+    cbn [hm mget]. intros id' da'. destruct (id' =? id) eqn:E; [|apply A].
+    intros H; inversion H; subst. apply N.eqb_eq in E; subst. exact Hlast.
+  - split; [split; [|exact HK]|cbn; lia]. constructor; cbn [chain meta sv_h sv_d di hm dm tr]; try apply I.
     destruct (i_prov _ _ I) as (A & B & C & D). repeat split; try assumption.
-      cbn [dm mget]. intros id' da'. destruct (id' =? id) eqn:E; [|apply C].
-      intros H; inversion H; subst. apply N.eqb_eq in E; subst. exact Hlast.
-  - pose proof (include_inv _ s (length (include_effs s)) I) as H. rewrite firstn_all in H. exact H.
-  - destruct (include_inv _ s k I) as (IA & IB).
-    destruct (boot_inv _ _ IA) as (IC & ID). split; [exact IC | lia].
-  - destruct (boot_inv _ _ (save_inv _ _ I)) as (IC & ID). split; [exact IC | rewrite ID; cbn; lia].
+    cbn [dm mget]. intros id' da'. destruct (id' =? id) eqn:E; [|apply C].
+    intros H; inversion H; subst. apply N.eqb_eq in E; subst. exact Hlast.
+  - destruct (dying_inv _ s (length (include_effs s)) I HK) as (IA & IB & IC).
+    unfold dying in *. rewrite firstn_all in *. split; [split; [exact IA | apply IC; lia] | exact IB].
+  - destruct (dying_inv _ s k I HK) as (IA & IB & _).
+    destruct (boot_inv _ _ IA) as (IC & ID & IE). split; [split; assumption | lia].
+  - destruct (dying_inv _ s k I HK) as (IA & IB & _).
+    destruct (boot_inv _ _ (save_inv _ _ IA)) as (IC & ID & IE). split; [split; assumption | cbn in *; lia].
+  - destruct (boot_inv _ _ (save_inv _ _ I)) as (IC & ID & IE). split; [split; assumption | cbn in *; lia].
 Qed.
 
-Lemma init_inv : Inv [] init.
+Lemma init_inv : QInv [] init.
 Proof.
-  constructor.
-  - reflexivity.
+  split; [|reflexivity]. constructor.
+  - left; reflexivity.
   - cbn; lia.
   - reflexivity.
   - exists 0. split; [left|]; reflexivity.
+  - exact I.
   - exact I.
   - cbn; intros n Hn; lia.
   - repeat split; intros id da H; discriminate H.
@@ -261,14 +316,14 @@ Proof. unfold run, run_from. rewrite fold_left_app. reflexivity. Qed.
 Lemma run_app h h' : run (h ++ h') = run_from (run h) h'.
 Proof. unfold run, run_from. apply fold_left_app. Qed.
 
-Theorem run_inv : forall h, Inv h (run h).
+Theorem run_inv : forall h, QInv h (run h).
 Proof.
   induction h as [|i h IH] using rev_ind; [exact init_inv|].
   rewrite run_snoc. apply step_inv, IH.
 Qed.
 
 (* ---- C07 safety ---------------------------------------------------------------------------------- *)
-Theorem monotone : forall h h', rep (run h) <= rep (run (h ++ h')).
+Lemma monotone_run : forall h h', rep (run h) <= rep (run (h ++ h')).
 Proof.
   intros h h'. induction h' as [|i h' IH] using rev_ind.
   - rewrite app_nil_r. lia.
@@ -276,27 +331,63 @@ Proof.
     destruct (step_inv _ _ i (run_inv (h ++ h'))) as (_ & Hm). unfold rep in *. lia.
 Qed.
 
+(* every instant: after a history, or k effects into an includer run at which the process dies / a write fails *)
+Theorem monotone : forall (h h' : list item) (k : nat),
+  rep (run h) <= rep (run (h ++ h')) /\
+  rep (run h) <= seen_at_death h k /\
+  seen_at_death h k <= rep (run (h ++ ICrash k :: h')) /\
+  seen_at_death h k <= rep (run (h ++ IFault k :: h')).
+Proof.
+  intros h h' k. destruct (run_inv h) as (I & HK).
+  destruct (dying_inv _ _ k I HK) as (IA & IB & _).
+  split; [apply monotone_run|]. split; [exact IB|].
+  unfold seen_at_death, rep.
+  split.
+  - pose proof (monotone_run (h ++ [ICrash k]) h') as M. rewrite <- app_assoc in M. cbn [app] in M.
+    rewrite run_snoc in M. cbn [step] in M. unfold rep in M.
+    destruct (boot_inv _ _ IA) as (_ & _ & IE). lia.
+  - pose proof (monotone_run (h ++ [IFault k]) h') as M. rewrite <- app_assoc in M. cbn [app] in M.
+    rewrite run_snoc in M. cbn [step] in M. unfold rep in M.
+    destruct (boot_inv _ _ (save_inv _ _ IA)) as (_ & _ & IE).
+    change (di (save (dying (run h) k))) with (di (dying (run h) k)) in IE. lia.
+Qed.
+
 Theorem durable : forall h k,
   rep (run (h ++ [IRestart])) = rep (run h) /\
   rep (run (h ++ [ICrash 0])) = rep (run h) /\
-  rep (run h) <= rep (run (h ++ [ICrash k])).
+  seen_at_death h k <= rep (run (h ++ [ICrash k])) <= seen_at_death h k + 1 /\
+  seen_at_death h k <= rep (run (h ++ [IFault k])) <= seen_at_death h k + 1.
 Proof.
-  intros h k. pose proof (run_inv h) as I. rewrite !run_snoc. unfold rep; cbn [step firstn].
-  split; [|split].
-  - destruct (boot_inv _ _ (save_inv _ _ I)) as (_ & E). rewrite E. reflexivity.
-  - destruct (boot_inv _ _ I) as (_ & E). cbn [apply_effs fold_left]. exact E.
-  - destruct (include_inv _ _ k I) as (IA & IB). destruct (boot_inv _ _ IA) as (_ & E). lia.
+  intros h k. destruct (run_inv h) as (I & HK). rewrite !run_snoc. unfold rep, seen_at_death; cbn [step].
+  destruct (dying_inv _ _ k I HK) as (IA & IB & _).
+  split; [|split; [|split]].
+  - cbn. exact HK.
+  - unfold dying. cbn [firstn apply_effs fold_left]. cbn. exact HK.
+  - cbn [boot di]. destruct (i_kd _ _ IA); lia.
+  - cbn [boot save di meta]. destruct (i_kd _ _ IA); lia.
 Qed.
 
 Theorem safety : forall h, let s := run h in
   rep s <= sheight s /\
   desc (dputs (tr s)) (rep s) /\
   (exists m, (m = rep s \/ m = rep s + 1) /\ finsok (fins (tr s)) m) /\
-  asked_before (tr s) /\
+  asked_before (tr s) /\ persisted_before (tr s) /\
   kd (meta s) = rep s.
 Proof.
-  intros h s. pose proof (run_inv h) as I. unfold rep.
+  intros h s. destruct (run_inv h) as (I & HK). fold s in I, HK. unfold rep. rewrite <- HK.
   repeat split; try apply I.
+Qed.
+
+(* the same at the instant of death / of a failing effect: the reported height is the persisted one or one less *)
+Theorem safety_at_death : forall h k, let s := dying (run h) k in
+  (kd (meta s) = di s \/ kd (meta s) = di s + 1) /\
+  kd (meta s) <= sheight s /\
+  desc (dputs (tr s)) (kd (meta s)) /\
+  (exists m, (m = kd (meta s) \/ m = kd (meta s) + 1) /\ finsok (fins (tr s)) m) /\
+  asked_before (tr s) /\ persisted_before (tr s).
+Proof.
+  intros h k s. destruct (run_inv h) as (I & HK). destruct (dying_inv _ _ k I HK) as (IA & _).
+  fold s in IA. repeat split; try apply IA.
 Qed.
 
 Theorem sound : forall h n, let s := run h in
@@ -306,17 +397,36 @@ Theorem sound : forall h n, let s := run h in
     meta_get (meta s) (KH n) = Some hda /\ meta_get (meta s) (KT n) = Some dda /\
     In (IMarkH (bh b) hda) h /\
     (if bempty b then dda = hda else In (IMarkD (bd b) dda) h).
-Proof. intros h n s Hn. exact (i_sound _ _ (run_inv h) n Hn). Qed.
+Proof.
+  intros h n s Hn. subst s. destruct (run_inv h) as (I & HK). apply (i_sound _ _ I). unfold rep in Hn. lia.
+Qed.
+
+(* also for every height visible at the instant of death *)
+Theorem sound_at_death : forall h k n, let s := dying (run h) k in
+  1 <= n <= di s ->
+  exists b hda dda,
+    block_at (chain s) n = Some b /\
+    meta_get (meta s) (KH n) = Some hda /\ meta_get (meta s) (KT n) = Some dda /\
+    In (IMarkH (bh b) hda) h /\
+    (if bempty b then dda = hda else In (IMarkD (bd b) dda) h).
+Proof.
+  intros h k n s Hn. subst s. destruct (run_inv h) as (I & HK). destruct (dying_inv _ _ k I HK) as (IA & _).
+  apply (i_sound _ _ IA). destruct (i_kd _ _ IA); lia.
+Qed.
 
 (* ---- C07 liveness ----------------------------------------------------------------------------- *)
 (* IsDAIncluded for a stored block *)
-Definition inclb (hmk dmk : marks) (b : blk) : bool :=
-  match mget hmk (bh b) with
+Definition inclb (hmk dmk : marks) (ob : option blk) : bool :=
+  match ob with
   | None => false
-  | Some _ => bempty b || match mget dmk (bd b) with Some _ => true | None => false end
+  | Some b =>
+      match mget hmk (bh b) with
+      | None => false
+      | Some _ => bempty b || match mget dmk (bd b) with Some _ => true | None => false end
+      end
   end.
 (* number of leading blocks that are included *)
-Fixpoint lead (hmk dmk : marks) (bs : list blk) : nat :=
+Fixpoint lead (hmk dmk : marks) (bs : list (option blk)) : nat :=
   match bs with
   | [] => 0%nat
   | b :: r => if inclb hmk dmk b then S (lead hmk dmk r) else 0%nat
@@ -325,16 +435,17 @@ Fixpoint lead (hmk dmk : marks) (bs : list blk) : nat :=
 Lemma di_incl hmk dmk : forall bs s,
   di (apply_effs s (incl_effs hmk dmk bs (di s))) = di s + N.of_nat (lead hmk dmk bs).
 Proof.
-  induction bs as [|b r IH]; intros s; cbn [incl_effs lead]; [cbn; lia|].
+  induction bs as [|ob r IH]; intros s; cbn [incl_effs lead]; [cbn; lia|].
+  destruct ob as [b|]; [|cbn; lia].
   unfold inclb. destruct (mget hmk (bh b)) as [hda|]; [|cbn; lia].
   destruct (bempty b); cbn [orb].
   - cbn [apply_effs fold_left].
-    set (s4 := apply_eff _ (EPut KD (di s + 1))).
-    change (di s + 1) with (di s4) at 1. unfold apply_effs in IH. rewrite IH. cbn. lia.
+    set (s5 := apply_eff _ (EPub (di s + 1))).
+    change (di s + 1) with (di s5) at 1. unfold apply_effs in IH. rewrite IH. cbn. lia.
   - destruct (mget dmk (bd b)) as [dda|]; [|cbn; lia].
     cbn [apply_effs fold_left].
-    set (s4 := apply_eff _ (EPut KD (di s + 1))).
-    change (di s + 1) with (di s4) at 1. unfold apply_effs in IH. rewrite IH. cbn. lia.
+    set (s5 := apply_eff _ (EPub (di s + 1))).
+    change (di s + 1) with (di s5) at 1. unfold apply_effs in IH. rewrite IH. cbn. lia.
 Qed.
 
 Lemma lead_ge hmk dmk : forall bs cnt,
@@ -364,17 +475,24 @@ Proof.
   - right. eapply IH; [exact H | lia].
 Qed.
 
+Lemma dying_fields s k :
+  chain (dying s k) = chain s /\ hm (dying s k) = hm s /\ dm (dying s k) = dm s /\
+  sv_h (dying s k) = sv_h s /\ sv_d (dying s k) = sv_d s.
+Proof. unfold dying. apply apply_effs_fields. Qed.
+
 (* marks produced after the last crash are in the cache *)
 Lemma live_h : forall h id, marked_h_since_crash (rev h) id = true -> mget (hm (run h)) id <> None.
 Proof.
   induction h as [|i h IH] using rev_ind; intros id; [cbn; discriminate|].
   rewrite rev_app_distr, run_snoc. cbn [rev app marked_h_since_crash].
-  destruct i as [b|i' da|i' da| |k|]; cbn [step hm]; intros H.
+  destruct i as [|b|i' da|i' da| |k|k|]; cbn [step hm]; intros H.
+  - apply IH, H.
   - apply IH, H.
   - cbn [mget]. rewrite N.eqb_sym. destruct (i' =? id); [discriminate|]. apply IH, H.
   - apply IH, H.
   - destruct (apply_effs_fields (include_effs (run h)) (run h)) as (_ & E & _). rewrite E. apply IH, H.
   - discriminate H.
+  - cbn. destruct (dying_fields (run h) k) as (_ & E & _). rewrite E. apply IH, H.
   - cbn. apply IH, H.
 Qed.
 
@@ -382,12 +500,14 @@ Lemma live_d : forall h id, marked_d_since_crash (rev h) id = true -> mget (dm (
 Proof.
   induction h as [|i h IH] using rev_ind; intros id; [cbn; discriminate|].
   rewrite rev_app_distr, run_snoc. cbn [rev app marked_d_since_crash].
-  destruct i as [b|i' da|i' da| |k|]; cbn [step dm]; intros H.
+  destruct i as [|b|i' da|i' da| |k|k|]; cbn [step dm]; intros H.
+  - apply IH, H.
   - apply IH, H.
   - apply IH, H.
   - cbn [mget]. rewrite N.eqb_sym. destruct (i' =? id); [discriminate|]. apply IH, H.
   - destruct (apply_effs_fields (include_effs (run h)) (run h)) as (_ & _ & E & _). rewrite E. apply IH, H.
   - discriminate H.
+  - cbn. destruct (dying_fields (run h) k) as (_ & _ & E & _). rewrite E. apply IH, H.
   - cbn. apply IH, H.
 Qed.
 
@@ -399,13 +519,14 @@ Proof.
   intros h n Hn Hg. rewrite run_snoc. cbn [step]. unfold rep, include_effs.
   set (s := run h) in *. rewrite di_incl.
   destruct (N.le_gt_cases n (di s)) as [Hle|Hgt]; [lia|].
-  pose proof (i_le _ _ (run_inv h)) as Hdi. fold s in Hdi. unfold sheight in *.
+  destruct (run_inv h) as (I & HK). fold s in I, HK.
+  pose proof (i_le _ _ I) as Hdi. unfold sheight in *.
   assert (Hlead : (N.to_nat (n - di s) <= lead (hm s) (dm s) (skipn (N.to_nat (di s)) (chain s)))%nat).
   { apply lead_ge; [rewrite skipn_length; lia|].
-    intros j b Hj Hb. rewrite nth_error_skipn' in Hb.
+    intros j ob Hj Hb. rewrite nth_error_skipn' in Hb.
     unfold blocks_marked_since_crash in Hg. rewrite forallb_forall in Hg.
-    assert (Hin : In b (firstn (N.to_nat n) (chain s))) by (eapply nth_error_in_firstn; [exact Hb | lia]).
-    specialize (Hg b Hin). apply andb_true_iff in Hg as (Hh & Hd).
+    assert (Hin : In ob (firstn (N.to_nat n) (chain s))) by (eapply nth_error_in_firstn; [exact Hb | lia]).
+    specialize (Hg ob Hin). destruct ob as [b|]; [|discriminate]. apply andb_true_iff in Hg as (Hh & Hd).
     pose proof (live_h h _ Hh) as Lh. fold s in Lh.
     unfold inclb. destruct (mget (hm s) (bh b)); [|congruence].
     destruct (bempty b); [reflexivity|]. cbn [orb] in *.
@@ -417,7 +538,7 @@ Qed.
 (* F9: the marks of an aggregator live only in memory.  After a crash nothing in the node re-creates them
    (the submitter's watermark is persisted, so the blobs are never submitted again): the height is stuck. *)
 Definition stuck (s : node) : Prop :=
-  di s = 0 /\ kd (meta s) = 0 /\ (exists b r, chain s = b :: r /\ bh b = 1) /\
+  di s = 0 /\ K s = 0 /\ (exists b r, chain s = Some b :: r /\ bh b = 1) /\
   mget (hm s) 1 = None /\ mget (sv_h s) 1 = None.
 
 Lemma stuck_effs s : stuck s -> include_effs s = [].
@@ -430,11 +551,14 @@ Lemma stuck_step s i : stuck s -> is_markh i = false -> stuck (step s i).
 Proof.
   intros S Hi. pose proof (stuck_effs s S) as He.
   destruct S as (Hd & Hk & (b & r & Hc & Hb) & Hm & Hs).
-  destruct i as [x|id da|id da| |k|]; cbn [step]; try discriminate Hi.
-  - repeat split; cbn; try assumption. exists b, (r ++ [x]). rewrite Hc. split; [reflexivity | exact Hb].
+  destruct i as [|x|id da|id da| |k|k|]; cbn [step]; try discriminate Hi; unfold dying; rewrite ?He, ?firstn_nil;
+    cbn [apply_effs fold_left].
+  - repeat split; cbn; try assumption. exists b, (r ++ [None]). rewrite Hc. split; [reflexivity | exact Hb].
+  - repeat split; cbn; try assumption. exists b, (r ++ [Some x]). rewrite Hc. split; [reflexivity | exact Hb].
   - repeat split; cbn; try assumption. exists b, r. split; assumption.
-  - rewrite He. cbn. repeat split; try assumption. exists b, r. split; assumption.
-  - rewrite He, firstn_nil. cbn [apply_effs fold_left]. repeat split; cbn; try assumption. exists b, r. split; assumption.
+  - repeat split; try assumption. exists b, r. split; assumption.
+  - repeat split; cbn; try assumption. exists b, r. split; assumption.
+  - repeat split; cbn; try assumption. exists b, r. split; assumption.
   - repeat split; cbn; try assumption. exists b, r. split; assumption.
 Qed.
 
@@ -469,4 +593,38 @@ Proof.
   assert (Hno : forallb (fun i => negb (is_markh i)) (repeat IInclude k) = true).
   { clear. induction k; [reflexivity | cbn; assumption]. }
   specialize (Hstuck _ Hno). lia.
+Qed.
+
+(* initial height above 1: the includer starts at height 1, which is a hole; nothing at all moves it *)
+Definition holed (s : node) : Prop := di s = 0 /\ K s = 0 /\ exists r, chain s = None :: r.
+
+Lemma holed_effs s : holed s -> include_effs s = [].
+Proof. intros (Hd & _ & (r & Hc)). unfold include_effs. rewrite Hd, Hc. reflexivity. Qed.
+
+Lemma holed_step s i : holed s -> holed (step s i).
+Proof.
+  intros S. pose proof (holed_effs s S) as He. destruct S as (Hd & Hk & (r & Hc)).
+  destruct i as [|x|id da|id da| |k|k|]; cbn [step]; unfold dying; rewrite ?He, ?firstn_nil;
+    cbn [apply_effs fold_left]; repeat split; cbn; try assumption;
+    first [exists r; exact Hc | eexists; rewrite Hc; reflexivity].
+Qed.
+
+Lemma holed_run : forall ext s, holed s -> holed (run_from s ext).
+Proof.
+  induction ext as [|i ext IH]; intros s S; [exact S|].
+  unfold run_from; cbn [fold_left]. apply IH, holed_step, S.
+Qed.
+
+Definition ih_history : list item := [IHole; IAppend {| bh := 1; bd := 0 |}; IMarkH 1 10].
+
+Theorem initial_height_refuted :
+  exists h n,
+    n <= sheight (run h) /\ blocks_marked_ever h n = true /\
+    forall ext, rep (run (h ++ ext)) = 0 /\ rep (run (h ++ ext)) < n.
+Proof.
+  exists ih_history, 2. split; [vm_compute; discriminate|]. split; [vm_compute; reflexivity|].
+  intros ext. rewrite run_app.
+  assert (S : holed (run ih_history)).
+  { unfold holed. vm_compute. repeat split. eexists; reflexivity. }
+  destruct (holed_run ext _ S) as (Hd & _). unfold rep. rewrite Hd. lia.
 Qed.
